@@ -217,9 +217,9 @@ func icmpChecksum(h header.ICMPv6, src, dst tcpip.Address, vv buffer.VectorisedV
 	binary.BigEndian.PutUint32(upperLayerLength[:], uint32(len(h)+vv.Size()))
 	xsum = header.Checksum(upperLayerLength[:], xsum)
 	xsum = header.Checksum([]byte{0, 0, 0, uint8(header.ICMPv6ProtocolNumber)}, xsum)
-	for _, v := range vv.Views() {
-		xsum = header.Checksum(v, xsum)
-	}
+	// The payload is summed as one byte string: summing it view by view is
+	// only correct when every view but the last has an even length.
+	xsum = header.Checksum(vv.ToView(), xsum)
 
 	// h[2:4] is the checksum itself, set it aside to avoid checksumming the checksum.
 	h2, h3 := h[2], h[3]
